@@ -14,8 +14,10 @@ What the code does (and the model repeats):
 * the evaluation loop runs a node iff `scheduled == evaluation_time` and resets the slot to `MIN_DT`.
 * `evaluate_feedback_source`: `apply_delta(output, state)`.  The state is **not cleared**: only the schedule
   slot decides whether it is emitted (again).
-* `start_feedback_source_with_initial_delta`: state := the declared initial delta, `schedule_node(source,
-  start_time)`.
+* `start_feedback_source_with_initial_delta` (the start hook; only a source built WITH a declared initial delta
+  has one): state := the declared initial delta, `schedule_node(source, start_time)` – unconditionally, the hook
+  does not look at the delta.  What the delta does is decided in the start cycle by `evaluate_feedback_source`,
+  i.e. by `apply_delta` on the FRESH output (not valid, empty) – see "start" below.
 * `apply_delta` (ts_delta.cpp) is gated by `delta_has_effect_*`, then per kind:
   - `TS` / `TSB` / `TSL`: every position carried by the delta is set and ticks (equal values tick too);
   - `TSS`: `removed` are removed, then `added` are added, then `touch()`: the output ticks even if nothing
@@ -105,40 +107,53 @@ def applyVal (k : Kind) (v : Val) (d : Delta) : Val := (applyDelta k v d).1
     the output always ticks; its delta reports the changes that took effect -/
 def producerStep (k : Kind) (v : Val) (ops : Delta) : Val × Delta := applyCore k v ops
 
-/-! ## the feedback pair -/
+/-! ## the feedback pair
 
-structure FB where
-  state : Option Delta := none     -- node state of the source: the captured delta (never cleared)
+The pair never looks into the delta it carries (`try_copy_feedback_state` / `capture_delta` / `apply_delta` are
+the shape-specific parts), so it is modelled for an arbitrary payload type `δ`; `δ = Delta` for the flat shapes,
+`δ = BDelta` for a bundle with a collection field (below). -/
+
+structure FB (δ : Type) where
+  state : Option δ := none         -- node state of the source: the captured delta (never cleared)
   sched : Nat := 0                 -- schedule slot of the source node (0 = MIN_DT = idle)
 deriving Repr, DecidableEq
+
+variable {δ : Type}
 
 /-- `schedule_node_impl` with `current` = the evaluation time -/
 def scheduleNode (current when_ scheduled : Nat) : Nat :=
   if scheduled ≤ current ∨ when_ < scheduled then when_ else scheduled
 
 /-- feedback source with a declared initial delta, after `start` -/
-def initFB (start : Nat) (d0 : Delta) : FB := { state := some d0, sched := start }
+def initFB (start : Nat) (d0 : δ) : FB δ := { state := some d0, sched := start }
+
+/-- the source after `start`: `make_feedback_source_node(schema, has_initial_delta)` installs the start hook only
+    when an initial delta was declared; without one the source starts idle -/
+def startFB (start : Nat) (init : Option δ) : FB δ :=
+  match init with
+  | some d0 => initFB start d0
+  | none => {}
 
 /-- the source is evaluated in the cycle at `t` -/
-def sourceDue (t : Nat) (s : FB) : Bool := s.sched == t
+def sourceDue (t : Nat) (s : FB δ) : Bool := s.sched == t
 
 /-- the source's turn in the cycle at `t`: the delta it hands to `apply_delta`, if it is evaluated -/
-def sourceStep (t : Nat) (s : FB) : FB × Option Delta :=
+def sourceStep (t : Nat) (s : FB δ) : FB δ × Option δ :=
   if s.sched = t then ({ s with sched := 0 }, s.state) else (s, none)
 
 /-- the sink's turn in the cycle at `t`; `w` = the producer's delta of this cycle if the producer ticked -/
-def sinkStep (t : Nat) (w : Option Delta) (s : FB) : FB :=
+def sinkStep (t : Nat) (w : Option δ) (s : FB δ) : FB δ :=
   match w with
   | some d => { state := some d, sched := scheduleNode t (t + 1) s.sched }
   | none => s
 
 /-- one engine cycle: source first (it ranks before its readers and before the sink), sink last -/
-def cycle (t : Nat) (w : Option Delta) (s : FB) : FB × Option Delta :=
+def cycle (t : Nat) (w : Option δ) (s : FB δ) : FB δ × Option δ :=
   let r := sourceStep t s
   (sinkStep t w r.1, r.2)
 
 /-- run over a list of engine cycles `(time, producer delta)`: the deltas the source delivers, with times -/
-def run : FB → List (Nat × Option Delta) → List (Nat × Delta)
+def run : FB δ → List (Nat × Option δ) → List (Nat × δ)
   | _, [] => []
   | s, (t, w) :: rest =>
     let r := cycle t w s
@@ -147,7 +162,7 @@ def run : FB → List (Nat × Option Delta) → List (Nat × Delta)
     | none => run r.1 rest
 
 /-- the state after the run -/
-def finalFB : FB → List (Nat × Option Delta) → FB
+def finalFB : FB δ → List (Nat × Option δ) → FB δ
   | s, [] => s
   | s, (t, w) :: rest => finalFB (cycle t w s).1 rest
 
@@ -167,19 +182,171 @@ def observed (k : Kind) (v : Val) (ds : List (Nat × Delta)) : List (Nat × Delt
 def finalVal (k : Kind) (v : Val) (ds : List (Nat × Delta)) : Val :=
   ds.foldl (fun v e => applyVal k v e.2) v
 
+/-- the same for any output type `σ`, payload `δ` and observation `ο`, given the shape's `apply_delta`
+    (`reader k = readerG (applyDelta k)`) -/
+def readerG {σ ο : Type} (ap : σ → δ → σ × Option ο) : σ → List (Nat × δ) → List (Nat × Option ο × σ)
+  | _, [] => []
+  | v, (t, d) :: rest => (t, (ap v d).2, (ap v d).1) :: readerG ap (ap v d).1 rest
+
+def observedG {σ ο : Type} (ap : σ → δ → σ × Option ο) (v : σ) (ds : List (Nat × δ)) : List (Nat × ο) :=
+  (readerG ap v ds).filterMap (fun e => e.2.1.map (fun d => (e.1, d)))
+
+/-! ## start: what a declared initial delta does
+
+In the start cycle the source is due (`initFB`) and hands the declared delta to `apply_delta` on the FRESH output:
+
+* `TS` / `TSB` / `TSL` (`fix`): the positions carried by the delta are set and tick; a delta that carries none
+  (the canonical empty delta of a `TSL` / of a `TSB` of `TS` fields; a `TS` has none – a typed-null initial delta is
+  rejected at wiring) has no effect: no tick, the output stays NOT valid – these shapes have no "empty but valid"
+  state.
+* `TSS` (`set`): ANY declared delta has an effect on the fresh output (`delta_has_effect_tss` ends in
+  `!out.valid()`): the output ticks at the start time and is valid from then on; for the EMPTY delta
+  `{added: {}, removed: {}}` it is the valid EMPTY set and the reader sees a tick with an empty delta.
+* `TSD` (`dict`): the same, except for a delta with removals only: "lenient removals of absent keys are not an
+  empty validating tick, even when the TSD is still fresh" – no tick, not valid.
+* `TSB` with a collection field: see `applyDeltaB`. -/
+
+/-- a fresh output: not valid, nothing in it -/
+def fresh : Val := {}
+
+/-- the shape has an "empty but valid" state (`TSS`, `TSD`) -/
+def Kind.coll : Kind → Bool
+  | .fix => false
+  | .set => true
+  | .dict => true
+
+/-- the canonical empty delta of a schema (`empty_delta_tss` / `_tsd` / `_tsl`, `empty_delta_tsb` over `TS` fields) -/
+def emptyDelta : Delta := {}
+
+/-! ## a bundle with a collection field: `TSB{a : TS, s : TSS}`
+
+* a bundle delta has one entry per field; an entry can be null (no value).  Authored deltas (`tsb_delta`, the
+  declared initial delta) and `empty_delta_tsb` initialise every COLLECTION field with that field's canonical
+  empty delta (`initialize_tsb_delta_defaults`), so `s` is never null there; the delta the sink copies from its
+  input (`ts.delta_value()`) carries a field only if the field ticked in this cycle.  (`capture_delta_tsb`, the
+  sink's fallback when the state cannot be copied into, would fill `s` with the empty delta; the two can differ
+  only on an output whose `s` is not yet valid, i.e. only without a declared initial delta – every declared delta
+  validates `s` – and there the correspondence shows the copy path: a write of `a` alone leaves `s` not valid.)
+* `delta_has_effect_tsb`: some child's entry has an effect on that child; `apply_delta_tsb`: `apply_delta` per
+  child, each behind its own gate.  So an empty bundle delta VALIDATES a fresh `s` (tick of `s` with an empty
+  delta) although it carries nothing for `a`. -/
+
+structure BDelta where
+  a : Option Int := none       -- entry of `a` (null unless written / authored)
+  s : Option Delta := none     -- entry of `s`: the child's set delta (`mods` = added, `rems` = removed); `none` = null
+deriving Repr, DecidableEq
+
+structure BVal where
+  a : Val := {}                -- field `a` (kind `fix`, position 0)
+  s : Val := {}                -- field `s` (kind `set`)
+deriving Repr, DecidableEq
+
+/-- what a reader of the bundle sees in a tick of the bundle: per field what the child reports (`none`: the
+    field did not tick) -/
+structure BObs where
+  a : Option Delta := none
+  s : Option Delta := none
+deriving Repr, DecidableEq
+
+/-- `empty_delta_tsb` for this schema = `tsb_delta(nullopt, nullopt)` -/
+def emptyDeltaB : BDelta := { a := none, s := some {} }
+
+/-- the entry of `a` as a delta of kind `fix` -/
+def aDelta (d : BDelta) : Delta :=
+  match d.a with
+  | some x => { mods := [(0, x)] }
+  | none => {}
+
+def hasEffectB (v : BVal) (d : BDelta) : Bool :=
+  hasEffect .fix v.a (aDelta d) ||
+  (match d.s with
+   | some ds => hasEffect .set v.s ds
+   | none => false)
+
+def applyDeltaB (v : BVal) (d : BDelta) : BVal × Option BObs :=
+  if hasEffectB v d then
+    let ra := applyDelta .fix v.a (aDelta d)
+    let rs := match d.s with
+      | some ds => applyDelta .set v.s ds
+      | none => (v.s, none)
+    ({ a := ra.1, s := rs.1 }, some { a := ra.2, s := rs.2 })
+  else (v, none)
+
+/-- a producer node writing `a` (`set`) and/or mutating `s` (`add` / `remove`; `ops.s = some _` iff it made at least
+    one such call): its new output and the delta it exposes (= what the sink copies) -/
+def producerStepB (v : BVal) (ops : BDelta) : BVal × BDelta :=
+  let va := match ops.a with
+    | some _ => (producerStep .fix v.a (aDelta ops)).1
+    | none => v.a
+  let rs := ops.s.map (producerStep .set v.s)
+  ({ a := va, s := match rs with
+                   | some r => r.1
+                   | none => v.s },
+   { a := ops.a, s := rs.map (·.2) })
+
+/-! ## a self loop through a validity-gated body
+
+`x` (an external `TS<Int>`) and the fed-back value `prev` (PASSIVE input) enter a body node whose output `acc`
+goes to the feedback sink.  The body has the default validity gate of a compute node: it is evaluated when an
+active input ticked (`x`) and ALL its inputs are valid – `x` is valid once it ticked, `prev` is valid iff the
+feedback source's output is.  Without a valid `prev` the body never runs, so nothing is ever written to the
+edge: the loop can only be started by a declared initial value. -/
+
+/-- what the body writes to its output (`harness/drv_fbshape.cpp` `Body<S>`):
+    `TS`: `prev + x`;  `TSS`: every member of `prev`, then `x`;  `TSD`: every item of `prev`, then `x % 3 ↦ x` -/
+def bodyOps (k : Kind) (prev : Val) (x : Int) : Delta :=
+  match k with
+  | .fix => { mods := [(0, (getKey 0 prev.items).getD 0 + x)] }
+  | .set => { mods := setKey x.toNat 0 prev.items }
+  | .dict => { mods := setKey (x.toNat % 3) x prev.items }
+
+structure Loop where
+  fb : FB Delta := {}
+  prev : Val := {}       -- the feedback source's output (the body's passive input)
+  acc : Val := {}        -- the body's output
+deriving Repr, DecidableEq
+
+/-- the body's turn: `x` = the external input's value if it ticked in this cycle -/
+def bodyStep (k : Kind) (prev acc : Val) (x : Option Int) : Val × Option Delta :=
+  match x with
+  | some xv => if prev.valid then ((producerStep k acc (bodyOps k prev xv)).1, some (producerStep k acc (bodyOps k prev xv)).2)
+               else (acc, none)
+  | none => (acc, none)
+
+/-- one engine cycle of the loop: source (ranks first), body, sink.
+    Result: new state, what a reader of the feedback port observes, the body's delta -/
+def loopCycle (k : Kind) (t : Nat) (x : Option Int) (L : Loop) : Loop × Option Delta × Option Delta :=
+  let r := sourceStep t L.fb
+  let pr : Val × Option Delta := match r.2 with
+    | some d => applyDelta k L.prev d
+    | none => (L.prev, none)
+  let b := bodyStep k pr.1 L.acc x
+  ({ fb := sinkStep t b.2 r.1, prev := pr.1, acc := b.1 }, pr.2, b.2)
+
+/-- the body's output stream over a list of engine cycles `(time, x)` -/
+def loopRun (k : Kind) : Loop → List (Nat × Option Int) → List (Nat × Delta)
+  | _, [] => []
+  | L, (t, x) :: rest =>
+    match (loopCycle k t x L).2.2 with
+    | some w => (t, w) :: loopRun k (loopCycle k t x L).1 rest
+    | none => loopRun k (loopCycle k t x L).1 rest
+
+/-- the loop after `start` -/
+def loopStart (start : Nat) (init : Option Delta) : Loop := { fb := startFB start init }
+
 /-! ## specification side -/
 
 /-- cycle lists the engine can produce: positive strictly increasing times, and a producer tick at `t` is
     followed by a cycle at exactly `t + 1` (the sink's schedule request is honoured – C02) unless the run
     ends (end time) -/
-def WF : List (Nat × Option Delta) → Prop
+def WF : List (Nat × Option δ) → Prop
   | [] => True
   | [(t, _)] => 0 < t
   | (t, w) :: (t', w') :: rest => 0 < t ∧ t < t' ∧ (w.isSome → t' = t + 1) ∧ WF ((t', w') :: rest)
 
 /-- the specification: every written delta, one smallest step later (a write in the last cycle of the run
     has no delivery cycle) -/
-def shifted : List (Nat × Option Delta) → List (Nat × Delta)
+def shifted : List (Nat × Option δ) → List (Nat × δ)
   | [] => []
   | [_] => []
   | (t, w) :: (t', w') :: rest =>
